@@ -417,6 +417,10 @@ func normalizeSetField(
 
 	switch {
 	case !isNil(old) && isNil(val):
+		if viaPrimitive(cfg, opts, p) {
+			// name addresses a list below a setting that is a primitive value
+			return raiseDuplicateKey(cfg, name)
+		}
 		return nil
 	case isNil(old):
 		err := p.SetValue(cfg, opts, val)
@@ -432,6 +436,17 @@ func normalizeSetField(
 	}
 }
 
+// viaPrimitive reports whether p finds its value by reading index 0 of a
+// primitive value (which is the primitive itself), not a list element.
+func viaPrimitive(cfg *Config, opts *options, p cfgPath) bool {
+	n := len(p.fields)
+	if n < 2 {
+		return false
+	}
+	parent, err := cfgPath{fields: p.fields[:n-1], sep: p.sep}.GetValue(cfg, opts)
+	return err == nil && !isNil(parent) && !isSub(parent)
+}
+
 // normalizeCombine adds the settings of from to the sub-configuration to, both
 // being defined by one input under overlapping names. Settings defined by both
 // are duplicates, independent of the order the names have been visited in.
@@ -439,6 +454,10 @@ func normalizeCombine(cfg *Config, name string, to, from cfgSub) Error {
 	combine := func(old, v value, set func(value)) Error {
 		switch {
 		case isNil(v):
+			if old == nil {
+				// the name exists, as it does when it is visited first
+				set(v)
+			}
 			return nil
 		case isNil(old):
 			set(v)
